@@ -1,5 +1,36 @@
-"""C04: decided by spec/Walker.tla (exhaustive TLC) + trace validation of the real walker/pool (see vlib/walker_engine.py)."""
-from vlib import walker_engine
+"""C04: walker level (Walker.tla exhaustive + trace validation, hangs/panics/races on the real walker and pool) and the
+directory-restore goroutines under CAS read faults (spec/DirLoad.tla exhaustive; the real DirectoryOutputHandler.Load driven with
+every fault subset inside a synctest bubble: it must return an error or an exact tree, never hang)."""
+import json, os
+from vlib import core, walker_engine
+
+def dirload(chk, tmp):
+    quick = chk.tier == "quick"
+    for n in ([3] if quick else [3, 5]):
+        cfg = f"SPECIFICATION LSpec\nCONSTANTS\n  NFiles = {n}\n  Cap = 1\n  NonBlockingSend = TRUE\nINVARIANTS FaultIsError\n"
+        res = core.tlc(os.path.join(tmp, f"dl{n}"), "DirLoad.tla", "dl.cfg", timeout=900, files={"dl.cfg": cfg})
+        core.tlc_must_pass(res, "DirLoad")
+        chk.add_tlc(f"DirLoad: {n} files, every fault subset, every interleaving; deadlock freedom + FaultIsError", res)
+    if not quick:
+        cfg = "SPECIFICATION LFairSpec\nCONSTANTS\n  NFiles = 3\n  Cap = 1\n  NonBlockingSend = TRUE\nPROPERTIES LoadTerminates\n"
+        res = core.tlc(os.path.join(tmp, "dll"), "DirLoad.tla", "dl.cfg", timeout=900, files={"dl.cfg": cfg})
+        core.tlc_must_pass(res, "DirLoad liveness")
+        chk.add_tlc("DirLoad liveness: LoadTerminates under weak fairness", res)
+    out = os.path.join(tmp, "fault_out.json")
+    p = core.go_test("./restoredrv", "TestDirLoadFaults", {"VERIF_FAULT_OUT": out, "VERIF_TIER": chk.tier}, timeout=1500)
+    if p.returncode != 0 or not os.path.exists(out):
+        raise core.Infra("fault driver failed:\n" + (p.stdout + p.stderr)[-3000:])
+    rs = json.load(open(out))
+    for r in rs:
+        chk.cov["traces_validated_against_impl"] += 1
+        chk.count((r["shape"], r["files"], tuple(r["fault"])), nontrivial=bool(r["fault"]))
+        want = "error" if r["fault"] else "ok"
+        if r["outcome"] == "hang":
+            chk.violation("dirload:hang", f"DirectoryOutputHandler.Load never returns: {r['shape']} directory with {r['files']} file(s), unreadable blobs {r['fault']}", r)
+        elif r["outcome"] != want:
+            chk.violation("dirload:" + r["outcome"], f"restore under read faults {r['fault']} of a {r['shape']} directory with {r['files']} file(s): expected {want}, got {r['outcome']} {r['detail'][:200]}", r)
+    chk.cov["dirload_cases"] = len(rs)
 
 def run(chk, tmp, replay=None):
     walker_engine.run(chk, tmp, "C04")
+    dirload(chk, tmp)
